@@ -1527,6 +1527,32 @@ def check_C19(chk):
         chk.report(res, "C19", f"backend {d['backend']}: {d['bad'][:2]} on {json.dumps(d['vec'])[:160]}", f"{d['backend']}:{d['bad'][0][:50]}")
     if not summ:
         raise Q.ToolError("backend runner gave no summary")
+    # (1b) the same sequences as LARGE requests: one block of the model = 1.5 MiB (requests of 1.5 - 4.5 MiB)
+    big = [v for v in vecs[:4000] if any(o["op"] == "R" and o["res"] > 1 for o in v["ops"])]
+    big = big[::max(1, len(big) // (60 if quick else 600))]
+    bp = os.path.join(chk.wd, "hostops_big.ndjson")
+    with open(bp, "w") as fh:
+        for v in big:
+            fh.write(json.dumps(v) + "\n")
+    p = subprocess.run([Q.QV, "backends", bp, tmp], stdout=subprocess.PIPE, stderr=subprocess.PIPE, text=True, timeout=3000,
+                       env=dict(os.environ, QV_UNIT=str(3072 * 512)))
+    if p.returncode != 0:
+        # a panic of a backend under test is data
+        msg = [l for l in p.stderr.splitlines() if "panicked" in l or "assertion" in l][:2]
+        if msg:
+            chk.report(dict(scenario=dict(hostops_big=big[0], unit=3072 * 512), summary={}), "C19",
+                       f"a backend panicked on large requests: {msg}", "bigreq:panic")
+        else:
+            raise Q.ToolError("backend runner failed on large requests")
+    for line in p.stdout.splitlines():
+        d = json.loads(line)
+        if d.get("summary"):
+            continue
+        if d["backend"] == "sim":
+            raise Q.ToolError(f"SimFile disagrees with spec/HostFile.tla on large requests: {d['bad'][:2]}")
+        chk.report(dict(scenario=dict(hostops_big=d["vec"], backend=d["backend"], unit=3072 * 512), summary={}), "C19",
+                   f"backend {d['backend']} (1.5 MiB blocks): {d['bad'][:2]} on {json.dumps(d['vec'])[:160]}", f"big:{d['backend']}:{d['bad'][0][:50]}")
+    chk.extra["large_request_vectors"] = len(big)
     # (2) guest-level histories on every backend
     scens = []
     for s_ in fam_seq(chk.tier, chk.seed, "c19g", 12 if quick else 120, 14, sweep_every=0, shaped=0.6,
